@@ -124,6 +124,10 @@ type instance struct {
 	salt  int
 	// released so far, in order
 	released []string
+	// the entries handed back by the last Acked(), with what they must contain:
+	// they belong to the caller, later registrations must not change them
+	lastBatch []sessions.AckMsg
+	lastWant  []entry
 	// pingModel: "queue" = any number of outstanding pings complete in order,
 	// "slot" = the documented single slot
 }
@@ -134,6 +138,21 @@ func newInstance(cap int) *instance {
 
 // apply runs one operation on both; returns a violation or "".
 func (in *instance) apply(o op) string {
+	if v := in.apply1(o); v != "" {
+		return v
+	}
+	if o.kind != opAcked {
+		for i, g := range in.lastBatch {
+			w := in.lastWant[i]
+			if !bytes.Equal(g.Msgbuf, w.msg) || !bytes.Equal(g.Ackbuf, w.ack) {
+				return fmt.Sprintf("an entry handed back earlier (id=%d) changed under its owner when %s was executed: request bytes now %x, were %x", g.Pktid, o, g.Msgbuf, w.msg)
+			}
+		}
+	}
+	return ""
+}
+
+func (in *instance) apply1(o op) string {
 	switch o.kind {
 	case opWait:
 		in.salt++
@@ -218,6 +237,8 @@ func (in *instance) apply(o op) string {
 			}
 			in.released = append(in.released, fmt.Sprintf("%d/%d", w.mtype, w.id))
 		}
+		in.lastBatch = append([]sessions.AckMsg(nil), got...)
+		in.lastWant = want
 	}
 	return ""
 }
